@@ -36,7 +36,8 @@ theorem ceilDiv_eq_model (a b : Nat) (ha : 1 ≤ a) :
 theorem volCount_eq_model (s c : Nat) (hs : 1 ≤ s) :
     Src.volCountZ (size_2 := s) (chunk_size_2 := c) = ((Tiling.count s c : Nat) : Int) ∧
     Src.volCountX (size_0 := s) (chunk_size_0 := c) = ((Tiling.count s c : Nat) : Int) := by
-  simp only [Src.volCountZ, Src.volCountX, Tiling.count]
+  -- (`Src.ceilDiv` in the simp set: the count may be written out or through `ceil_div` in the source)
+  simp only [Src.volCountZ, Src.volCountX, Src.ceilDiv, Tiling.count]
   push_cast
   have : ((s - 1 : Nat) : Int) = (s : Int) - 1 := by omega
   rw [this]
@@ -76,7 +77,7 @@ theorem pyramid_arith_eq_model (a : Pyramid.Axis) :
 /-- the per-axis chunk count of `scale-stats` as written in the source is the model's `Tiling.count` -/
 theorem statsCount_eq_model (s c : Nat) (hs : 1 ≤ s) :
     Src.statsChunksPerAxis (s := s) (cs := c) = ((Tiling.count s c : Nat) : Int) := by
-  simp only [Src.statsChunksPerAxis, Tiling.count]
+  simp only [Src.statsChunksPerAxis, Src.ceilDiv, Tiling.count]
   push_cast
   have : ((s - 1 : Nat) : Int) = (s : Int) - 1 := by omega
   rw [this]
@@ -134,7 +135,7 @@ theorem slices_arith_eq_model (n cs g k : Nat) (hn : 1 ≤ n) (hk : k < min (cs 
     simp [Slices.groupFiles]
   have hmin := Nat.min_le_right (cs * (g + 1)) n
   refine ⟨?_, ?_, ?_, ?_, ?_⟩
-  · simp only [Src.sliceGroups, Tiling.count]
+  · simp only [Src.sliceGroups, Src.ceilDiv, Tiling.count]
     push_cast
     have : ((n - 1 : Nat) : Int) = (n : Int) - 1 := by omega
     rw [this]
